@@ -54,10 +54,10 @@ type c10Case struct {
 func c10World(extra map[string]string) *oracle.World {
 	src := map[string]string{}
 	for i, p := range c10Paths {
-		src[p] = fmt.Sprintf("package %s\n\ntype T%d struct{}\n\nfunc F%d() {}\n\nvar V%d int\n\nconst K%d = %d\n", c10Names[i], i, i, i, i, i)
+		src[p] = fmt.Sprintf("package %s\n\ntype T%d struct{}\n\nfunc F%d() {}\n\nvar V%d int\n\nconst K%d = %d\n\ntype G%d[P any] struct{}\n", c10Names[i], i, i, i, i, i, i)
 	}
 	// exports the names of dependency 0 as well: only ever dot-imported by a target (Clash)
-	src["q.r/z"] = "package z\n\ntype T0 struct{}\n\nfunc F0() {}\n\nvar V0 int\n\nconst K0 = 0\n\nfunc Z9() {}\n"
+	src["q.r/z"] = "package z\n\ntype T0 struct{}\n\nfunc F0() {}\n\nvar V0 int\n\nconst K0 = 0\n\ntype G0[P any] struct{}\n\nfunc Z9() {}\n"
 	for k, v := range extra {
 		src[k] = v
 	}
@@ -80,7 +80,7 @@ func c10Qual(f c10File, i int) string {
 
 // c10Body renders the uses of dependency set `uses` with file f's qualifiers.
 // references per dependency in a body (c10Body) and in the var item
-const c10BodyRefs, c10VarRefs = 8, 4
+const c10BodyRefs, c10VarRefs = 10, 4
 
 func c10Body(f c10File, uses int, tag string) string {
 	var b strings.Builder
@@ -92,6 +92,8 @@ func c10Body(f c10File, uses int, tag string) string {
 		fmt.Fprintf(&b, "\t%sF%d()\n\tvar %s%d %sT%d = %sT%d{}\n\t_ = %s%d\n\t_ = %sV%d\n", q, i, tag, i, q, i, q, i, tag, i, q, i)
 		// further reference positions: map-literal key, array-literal index key, type assertion
 		fmt.Fprintf(&b, "\t_ = map[int]%sT%d{%sK%d: {}}\n\t_ = [...]int{%sK%d: 1}\n\t_, _ = interface{}(nil).(%sT%d)\n", q, i, q, i, q, i, q, i)
+		// a generic type of the package instantiated with a type of the package
+		fmt.Fprintf(&b, "\t_ = %sG%d[%sT%d]{}\n", q, i, q, i)
 	}
 	return b.String()
 }
@@ -294,7 +296,7 @@ func c10Load(w *oracle.World, path, text string, resolveLocal bool) (*c10Loaded,
 	return &c10Loaded{file: f, chk: chk}, nil
 }
 
-var c10Ref = regexp.MustCompile(`^[FTVK]([0-9])$`)
+var c10Ref = regexp.MustCompile(`^[FTVKG]([0-9])$`)
 
 func findFunc(f *dst.File, name string) *dst.FuncDecl {
 	for _, d := range f.Decls {
